@@ -42,6 +42,7 @@ type plugin struct {
 	dir      string
 	die      bool
 	failSync bool
+	hang     bool
 }
 
 func (p *plugin) save() {
@@ -75,6 +76,9 @@ func (p *plugin) RunPodSandbox(_ context.Context, pod *api.PodSandbox) error {
 	if p.die {
 		go func() { time.Sleep(2 * time.Millisecond); os.Exit(3) }()
 	}
+	if p.hang {
+		select {} // never answers: the runtime drops the plugin after the request timeout - and must kill it
+	}
 	return nil
 }
 
@@ -103,7 +107,7 @@ func main() {
 			rep.Fds[e.Name()] = t
 		}
 	}
-	p := &plugin{rep: rep, dir: c.Reports, path: filepath.Join(c.Reports, fmt.Sprintf("%s.%d.json", name, os.Getpid())), die: c.Behaviour == "dielater", failSync: c.Behaviour == "failsync"}
+	p := &plugin{rep: rep, dir: c.Reports, path: filepath.Join(c.Reports, fmt.Sprintf("%s.%d.json", name, os.Getpid())), die: c.Behaviour == "dielater", failSync: c.Behaviour == "failsync", hang: c.Behaviour == "hang"}
 	p.save()
 	switch c.Behaviour {
 	case "exit":
